@@ -1,225 +1,21 @@
 //! C01 — Khovanov homology equals the cube-of-resolutions definition.
-//! Part 1 (inputs x configurations): every diagram of the exhaustive planar family and of the
-//! braid family x rings x (h,t) x reduced/unreduced against the reference cube.
-//! Part 2 (orders) and part 3 (schedules) are in `orders.rs` / `sched_part.rs`.
+//! Part 1 (inputs x configurations) is in `part1.rs`, part 2 (orders) in `orders.rs`, part 3
+//! (schedules) in `sched_part.rs`; part 4 re-runs part 1 against the `old` engine (`c01old`).
 
-use std::collections::BTreeMap;
-
-use checks::bridge::Bridge;
-use checks::khconv::*;
-use checks::linkconv::*;
-use num_bigint::BigInt;
-use vcore::reflink::{khovanov, Diagram, KhTable, Module};
-use vcore::refnum::*;
-use vcore::{catch, json, Run};
-use yui::{EucRing, EucRingOps, Ratio, FF, FF2};
-use yui_kh::kh::{KhComplexBigraded, KhHomology};
-use yui_link::Link;
+use vcore::{json, Run};
 
 mod orders;
+mod part1;
 mod sched_part;
-
-#[derive(Clone, Copy, Debug)]
-struct Cfg {
-    h: i64,
-    t: i64,
-    reduced: bool,
-}
-
-fn base_edge(d: &Diagram) -> usize {
-    let e = d.edge_of_dart();
-    (0..4).map(|s| e[s]).min().unwrap()
-}
-
-fn compare_with<R>(run: &Run, ring: &'static str, name: &str, d: &Diagram, link: &Link, cfg: Cfg, reference: &KhTable<R::Ref>)
-where
-    R: EucRing + Bridge,
-    for<'x> &'x R: EucRingOps<R>,
-    R::Ref: IsoClass,
-{
-    let key = format!("kh:{ring}:{name}:{}:h={},t={},red={}", code_string(d), cfg.h, cfg.t, cfg.reduced as u8);
-    let detail = |lib: String, rf: String| json!({"pd": pd_of(link), "ring": ring, "h": cfg.h, "t": cfg.t, "reduced": cfg.reduced, "library": lib, "reference": rf});
-    let (h, t) = (R::from_ref(&R::Ref::from_i64(cfg.h)), R::from_ref(&R::Ref::from_i64(cfg.t)));
-    run.add("evaluations", 1);
-    match catch(|| total_table(&KhHomology::<R>::new(link, &h, &t, cfg.reduced))) {
-        Ok(tab) => {
-            if let Some(diff) = diff_tables(&tab, &reference.total) {
-                run.fail(&key, &format!("total homology differs from the cube: {diff}"), detail(show_table(&tab), show_table(&reference.total)));
-            }
-        }
-        Err(p) => run.fail(&key, &format!("KhHomology::new panicked: {p}"), detail("".into(), show_table(&reference.total))),
-    }
-    if let Some(refbig) = &reference.bigraded {
-        run.add("evaluations", 1);
-        match catch(|| bigraded_table(&KhComplexBigraded::<R>::new(link, &h, &t, cfg.reduced).homology())) {
-            Ok(tab) => {
-                if let Some(diff) = diff_tables(&tab, refbig) {
-                    run.fail(&format!("{key}:bigraded"), &format!("bigraded homology differs from the cube: {diff}"), detail(show_table(&tab), show_table(refbig)));
-                }
-            }
-            Err(p) => run.fail(&format!("{key}:bigraded"), &format!("KhComplexBigraded panicked: {p}"), detail("".into(), show_table(refbig))),
-        }
-    }
-}
-
-fn configs(vals: &[i64], with_reduced: bool) -> Vec<Cfg> {
-    let mut v = vec![];
-    for &h in vals {
-        for &t in vals {
-            v.push(Cfg { h, t, reduced: false });
-        }
-        if with_reduced {
-            v.push(Cfg { h, t: 0, reduced: true });
-        }
-    }
-    v
-}
-
-fn check_diagram(run: &Run, name: &str, d: &Diagram, level: u8) {
-    let link = to_link(d);
-    let be = base_edge(d);
-    // ---- Z ------------------------------------------------------------------------------------
-    let zcfg = match level {
-        2 => configs(&[0, 1, 2, -1, 3], true),
-        1 => configs(&[0, 1, 2], true),
-        _ => vec![Cfg { h: 0, t: 0, reduced: false }, Cfg { h: 0, t: 0, reduced: true }, Cfg { h: 1, t: 0, reduced: false }, Cfg { h: 0, t: 1, reduced: false }, Cfg { h: 2, t: 0, reduced: true }],
-    };
-    let mut ztab: BTreeMap<(i64, i64, bool), KhTable<Z>> = BTreeMap::new();
-    for c in &zcfg {
-        let r = khovanov::<Z>(d, &z(c.h), &z(c.t), c.reduced.then_some(be));
-        compare_with::<i64>(run, "i64", name, d, &link, *c, &r);
-        if c.h == 0 && c.t == 0 || level == 2 && c.h == 1 {
-            compare_with::<BigInt>(run, "BigInt", name, d, &link, *c, &r);
-            compare_with::<i128>(run, "i128", name, d, &link, *c, &r);
-        }
-        ztab.insert((c.h, c.t, c.reduced), r);
-    }
-    // ---- Q: the cube over Q is the cube over Z tensor Q, so the reference is the free part -------
-    let free = |t: &KhTable<Z>| -> KhTable<Q> {
-        fn f<K: Ord + Clone>(m: &BTreeMap<K, Module<Z>>) -> BTreeMap<K, Module<Q>> {
-            m.iter().filter(|(_, v)| v.rank > 0).map(|(k, v)| (k.clone(), Module { rank: v.rank, tors: vec![] })).collect()
-        }
-        KhTable { total: f(&t.total), bigraded: t.bigraded.as_ref().map(f) }
-    };
-    for (k, t) in &ztab {
-        let c = Cfg { h: k.0, t: k.1, reduced: k.2 };
-        if level == 0 && !(c.t == 1 || (c.h == 0 && c.t == 0 && !c.reduced)) {
-            continue;
-        }
-        compare_with::<Ratio<i64>>(run, "Ratio<i64>", name, d, &link, c, &free(t));
-    }
-    // ---- F2, F3 -------------------------------------------------------------------------------
-    let f2cfg = if level >= 1 { configs(&[0, 1], true) } else { vec![Cfg { h: 0, t: 0, reduced: false }, Cfg { h: 0, t: 0, reduced: true }] };
-    for c in &f2cfg {
-        let r = khovanov::<Fp<2>>(d, &Fp::new(c.h), &Fp::new(c.t), c.reduced.then_some(be));
-        compare_with::<FF2>(run, "FF2", name, d, &link, *c, &r);
-    }
-    // F5: a field with units other than +-1 (Gaussian elimination on a pivot u with u^-1 != u)
-    let f5cfg = if level >= 2 { configs(&[0, 1, 2], true) } else if level == 1 { configs(&[0, 1], true) } else { vec![Cfg { h: 0, t: 0, reduced: false }, Cfg { h: 1, t: 1, reduced: false }] };
-    for c in &f5cfg {
-        let r = khovanov::<Fp<5>>(d, &Fp::new(c.h), &Fp::new(c.t), c.reduced.then_some(be));
-        compare_with::<FF<5>>(run, "FF<5>", name, d, &link, *c, &r);
-    }
-    let f3cfg = if level >= 2 { configs(&[0, 1, 2], true) } else if level == 1 { configs(&[0, 1], true) } else { vec![Cfg { h: 0, t: 0, reduced: false }] };
-    for c in &f3cfg {
-        let r = khovanov::<Fp<3>>(d, &Fp::new(c.h), &Fp::new(c.t), c.reduced.then_some(be));
-        compare_with::<FF<3>>(run, "FF<3>", name, d, &link, *c, &r);
-    }
-}
-
-/// every presentation (edge relabeling x crossing listing order) of the diagram: reduced and
-/// unreduced homology at h = t = 0 and reduced Lee-type (h = 1) must still equal the cube, whose
-/// base point is recomputed from the code (smallest label of the first listed crossing)
-fn check_presentations(run: &Run, name: &str, d: &Diagram) {
-    for (vn, code) in code_variants(d, d.n >= 4).into_iter().skip(1) {
-        let Some((d2, base)) = parse_with_base(&code) else {
-            eprintln!("MACHINERY ERROR: variant {vn} of {name} does not parse");
-            std::process::exit(3);
-        };
-        let link = Link::from_pd_code(code.clone());
-        let vname = format!("{name}:{vn}");
-        for c in [Cfg { h: 0, t: 0, reduced: true }, Cfg { h: 0, t: 0, reduced: false }, Cfg { h: 1, t: 0, reduced: true }] {
-            let r = khovanov::<Z>(&d2, &z(c.h), &z(c.t), c.reduced.then_some(base));
-            compare_with::<i64>(run, "i64", &vname, &d2, &link, c, &r);
-            if c.reduced && c.h == 0 {
-                let r2 = khovanov::<Fp<2>>(&d2, &Fp::new(0), &Fp::new(0), Some(base));
-                compare_with::<FF2>(run, "FF2", &vname, &d2, &link, c, &r2);
-            }
-        }
-        run.add("presentations", 1);
-    }
-}
-
-fn corner_cases(run: &Run) {
-    // the empty link and the crossingless unknot (no reference diagram: expected values by hand)
-    let one = |rank: usize| Module::<Z> { rank, tors: vec![] };
-    let cases: Vec<(&str, Link, bool, BTreeMap<(i64, i64), Module<Z>>)> = vec![
-        ("empty", Link::empty(), false, [((0, 0), one(1))].into_iter().collect()),
-        ("unknot", Link::unknot(), false, [((0, -1), one(1)), ((0, 1), one(1))].into_iter().collect()),
-        ("unknot-reduced", Link::unknot(), true, [((0, 0), one(1))].into_iter().collect()),
-    ];
-    for (name, l, red, want) in cases {
-        run.add("evaluations", 1);
-        let key = format!("kh:corner:{name}");
-        match catch(|| bigraded_table(&KhComplexBigraded::<i64>::new(&l, &0, &0, red).homology())) {
-            Ok(t) => {
-                if let Some(d) = diff_tables(&t, &want) {
-                    run.fail(&key, &d, json!({"case": name}));
-                }
-            }
-            Err(p) => run.fail(&key, &format!("panicked: {p}"), json!({"case": name})),
-        }
-        for (h, t) in [(1i64, 0i64), (0, 1), (2, 0)] {
-            if red && t != 0 {
-                continue;
-            }
-            run.add("evaluations", 1);
-            let total: usize = want.values().map(|m| m.rank).sum();
-            match catch(|| total_table(&KhHomology::<i64>::new(&l, &h, &t, red))) {
-                Ok(tab) => {
-                    let ok = tab.len() == 1 && tab.get(&0).map(|m| m.rank == total && m.tors.is_empty()).unwrap_or(false);
-                    if !ok {
-                        run.fail(&format!("{key}:h={h},t={t}"), &format!("expected free of rank {total} in degree 0, got {}", show_table(&tab)), json!({"case": name}));
-                    }
-                }
-                Err(p) => run.fail(&format!("{key}:h={h},t={t}"), &format!("panicked: {p}"), json!({"case": name})),
-            }
-        }
-    }
-}
 
 fn main() {
     let run = Run::new("C01", "model_checking");
     checks::sched::install_hook();
-    let th = run.thorough();
-    corner_cases(&run);
     // ---- part 1: inputs x configurations -------------------------------------------------------
-    let mut fam: Vec<(String, Diagram, u8)> = vec![];
-    for (n, d) in planar_family(if th { 4 } else { 3 }) {
-        let lvl = if d.n <= 2 { 2 } else if d.n == 3 { if th { 2 } else { 1 } } else { 0 };
-        fam.push((n, d, lvl));
-    }
-    let braid_spec: Vec<(usize, usize)> = if th { vec![(2, 7), (3, 6), (4, 5)] } else { vec![(2, 6), (3, 4), (4, 3)] };
-    for (n, d) in braid_family(&braid_spec) {
-        let lvl = if th && d.n <= 4 { 1 } else { 0 };
-        fam.push((n, d, lvl));
-    }
-    run.add("diagrams", fam.len() as u64);
-    run.par_for(fam.len(), |i| {
-        if run.over_budget_frac(0.45) {
-            run.cap("wall budget reached in part 1 (inputs x configurations)");
-            return;
-        }
-        let (name, d, lvl) = &fam[i];
-        if i % 400 == 0 {
-            run.sample(json!({"part": 1, "diagram": name, "pd": d.pd(), "config_level": lvl}));
-        }
-        check_diagram(&run, name, d, *lvl);
-        if d.n <= 3 || *lvl >= 1 {
-            check_presentations(&run, name, d);
-        }
-    });
-    let part1 = run.get("evaluations");
+    let part1 = part1::run_part1(&run, 0.35);
+    // ---- part 4 (run here so that its budget is not eaten by parts 2/3): part 1 again on the
+    // second engine (yui-kh built with the cargo feature `old`: explicit cube) --------------------
+    let old = run.run_subpart("c01old", "old-engine", run.budget_s() * 0.2);
     // ---- part 2: orders of the Bar-Natan machine (explicit-state) -------------------------------
     let o = orders::orders_part(&run);
     // ---- part 3: thread schedules of connect_edges / eliminate -----------------------------------
@@ -234,6 +30,7 @@ fn main() {
         "part1_inputs_x_configs": {"diagrams": run.get("diagrams"), "library_evaluations": part1},
         "part2_orders": o.json,
         "part3_schedules": s.json,
+        "part4_old_engine": {"evidence": "evidence/parts/C01.old-engine.json", "violations": old["violations"], "wall_s": old["wall_s"], "library_evaluations": old["coverage"]["evaluations"], "diagrams": old["coverage"]["distinct_nontrivial"], "caps_hit": old["coverage"]["caps_hit"]},
         "exhaustive": true,
     });
     run.finish(
